@@ -295,6 +295,9 @@ def ob_solver(cfg, noise):
     def body(c, it):
         import pyphysim.ia.algorithms as alg
         from pyvc.interp import _det_inv
+        # the equivalent-channel inverse appears identically (same division atoms) in the code's value and in the spec:
+        # compare structurally, only the outermost ratio is cross-multiplied
+        c.frac_propagation = False
         o, F, U, nv = _setup(c, it, cf, noise, pathloss=True)
         K = cf["K"]
         H = it.getattr(o, "H")
